@@ -1734,34 +1734,50 @@ Plan gen_C10(std::uint64_t seed, int tier) {
     basic_world(g, o, small);
     // records for policy 0, cloned for the others
     int style = g.r.chance(0.5) ? (int)g.r.below(ST_COUNT) : -1;
-    std::vector<int> base;
+    std::vector<int> base, slots;
     {
         auto cr = g.class_recs(0, style, o.max_alias > 1);
         for (auto& v : cr)
             for (int ri : v)
                 base.push_back(ri);
         int nm = g.r.range(1, 3);
-        for (int s : g.pick_slots(o.slots, nm)) {
-            int mi = g.method(0, s, o.root_bias);
+        slots = g.pick_slots(o.slots, nm + 2);
+        for (int k = 0; k < nm; ++k) {
+            int mi = g.method(0, slots[k], o.root_bias);
             base.push_back(mi);
             for (int di : g.defs(0, mi, g.r.range(0, 7), o.focus))
                 base.push_back(di);
         }
+        slots.erase(slots.begin(), slots.begin() + nm);
     }
-    std::vector<std::vector<int>> per_pol(np);
+    // a second module, for histories in which the registry changes between
+    // updates (the same change under every flavour)
+    std::vector<int> later;
+    if (g.r.chance(0.45)) {
+        int nm = g.r.range(1, 2);
+        for (int k = 0; k < nm; ++k) {
+            int mi = g.method(0, slots[k], o.root_bias);
+            later.push_back(mi);
+            for (int di : g.defs(0, mi, g.r.range(0, 5), o.focus))
+                later.push_back(di);
+        }
+    }
+    std::vector<std::vector<int>> per_pol(np), later_pol(np);
     per_pol[0] = base;
+    later_pol[0] = later;
     for (int pi = 1; pi < np; ++pi) {
         std::map<int, int> remap;
-        for (int ri : base) {
-            Rec c = g.p.recs[ri];
-            c.pol = pi;
-            if (c.kind == RK_CLASS && no_alias_policy(pool[pi]))
-                c.alias = 0; // one id per class under std_rtti
-            if (c.kind == RK_DEF)
-                c.meth = remap[c.meth];
-            remap[ri] = g.add(c);
-            per_pol[pi].push_back(remap[ri]);
-        }
+        for (int phase = 0; phase < 2; ++phase)
+            for (int ri : phase ? later : base) {
+                Rec c = g.p.recs[ri];
+                c.pol = pi;
+                if (c.kind == RK_CLASS && no_alias_policy(pool[pi]))
+                    c.alias = 0; // one id per class under std_rtti
+                if (c.kind == RK_DEF)
+                    c.meth = remap[c.meth];
+                remap[ri] = g.add(c);
+                (phase ? later_pol : per_pol)[pi].push_back(remap[ri]);
+            }
     }
     std::uint64_t sample = g.r.next();
     int nup = g.r.range(1, 3);
@@ -1772,6 +1788,32 @@ Plan gen_C10(std::uint64_t seed, int tier) {
             g.ev_update(pi);
         auto& ck = g.ev_check(pi, ROUTES_BASIC);
         ck.sample_seed = sample; // same tuples under every flavour
+    }
+    if (!later.empty()) {
+        // some definitions of the first module go away, the second arrives
+        std::vector<std::size_t> gone;
+        for (std::size_t k = 0; k < base.size(); ++k)
+            if (g.p.recs[base[k]].kind == RK_DEF && g.r.chance(0.25))
+                gone.push_back(k);
+        std::uint64_t sample2 = g.r.next();
+        std::uint64_t oseed = g.r.next();
+        for (int pi = 0; pi < np; ++pi) {
+            std::vector<int> un;
+            for (auto k : gone)
+                un.push_back(per_pol[pi][k]);
+            if (!un.empty())
+                g.ev_unload(un);
+            Rng keep = g.r;
+            g.r = Rng(oseed); // the same order under every flavour
+            auto ord = g.order(later_pol[pi]);
+            g.r = keep;
+            g.ev_load(ord);
+        }
+        for (int pi = 0; pi < np; ++pi) {
+            g.ev_update(pi);
+            auto& ck = g.ev_check(pi, ROUTES_BASIC);
+            ck.sample_seed = sample2;
+        }
     }
     return g.p;
 }
